@@ -33,6 +33,8 @@ def leaves(t):
 
 
 def run(db, chk) -> None:
+    from ..specs.discipline import check_shared_trace_untouched
+    check_shared_trace_untouched(db, chk, "C05.R-shared-trace")
     from ..specs.discipline import check_facade_stateless
     check_facade_stateless(db, chk, "C05.R-facade-stateless", ['get_gpu_kernel_breakdown'])
     from ..specs.discipline import check_stateless
